@@ -4,64 +4,64 @@ import json, subprocess
 
 CHECKS = {
  "C01": ("model_checking", "5 (C01)", "explicit-state BFS over the real BufBitWriter + per-node replay on all real backends/finishers, vs bit-vector model",
-         "Every (writer state, operation) pair within depth 3 (full alphabet at depths 1-2, boundary alphabet at depth 3; depth 4 in thorough; whole reachable space for 8-bit words) for both endiannesses and all five word sizes is executed on the real code and compared with an independent bit-vector model, and every explored history is replayed on seven backend kinds (vector owned/borrowed, fixed slice, byte adapter over Vec / a 3-bytes-per-call sink / a commit-on-flush sink, recorder) x four finishers; plus long streams (unary codes of up to 70 001 zeros, 1 200 consecutive writes). Exhaustive inside the stated depth/alphabet; not a proof for longer histories.",
+         "Every (writer state, operation) pair within depth 3 (full alphabet at depths 1-2, boundary alphabet at depth 3; depth 4 in thorough; whole reachable space for 8-bit words) for both endiannesses and all five word sizes is executed on the real code and compared with an independent bit-vector model, and every explored history is replayed on seven backend kinds (vector owned/borrowed, fixed slice, byte adapter over Vec / a 3-bytes-per-call sink / a commit-on-flush sink, recorder) x four finishers; plus long streams (unary codes of up to 70 001 zeros, 1 200 consecutive writes) and unary codes around and beyond 2^32 bits into a sparse sink. Exhaustive inside the stated depth/alphabet; not a proof for longer histories.",
          "Trusted: the reference model (canonical layout, ~100 lines) and parametricity of BufBitWriter in its WordWrite backend. Values are from a 4-pattern x {clean,dirty} alphabet, not all 2^64."),
  "C02": ("model_checking", "5 (C02)", "explicit-state BFS to the fixpoint of the real reader objects (exact Debug-string state identity) vs bit-vector model",
-         "The whole reachable state space of every reader kind x backend x endianness over each image is enumerated (the space closes because keys are exact concrete states), and every enabled operation of the full alphabet is executed from every state on a clone and compared with the model. Exhaustive for the given images; data-dependence outside the images is the residual risk.",
+         "The whole reachable state space of every reader kind x backend x endianness over each image is enumerated (the space closes because keys are exact concrete states), and every enabled operation of the full alphabet is executed from every state on a clone and compared with the model; backends include a byte source that delivers words in pieces and answers Interrupted; ALL 65 536 two-byte streams are explored to the fixpoint on the 8-bit-word reader (data-complete small scope); read_unary/skip_bits of 2^32+ bits over a synthetic source. Exhaustive for the given images; data-dependence outside the images and beyond two-byte streams is the residual risk.",
          "Trusted: reference model; images are a finite set (structured + seeded)."),
  "C03": ("exploration", "5 (C03)", "bounded-exhaustive enumeration of (code, parameter, value, offset, endianness, writer word, reader) histories on the real writer and readers",
-         "Bounded-exhaustive grid over the parameter/value/offset/configuration space with every read variant tried on clones; a grid, not all 2^64 values.",
+         "Bounded-exhaustive grid over the parameter/value/offset/configuration space with every read variant tried on clones (the read-back is independent of whether the written bytes match the reference); a grid, not all 2^64 values.",
          "Trusted: the value grid reaches the defects' locations (all small values, every 2^i+-2, code-specific step points, maxima)."),
  "C04": ("exploration", "5 (C04)", "bounded-exhaustive comparison of the real writer's bytes with an independent reference encoder validated against three repository sources",
-         "Every (code, parameter, value) of the grid is written with every write variant and every word size and compared bit for bit with the reference encoder, which is itself validated against python/gen_code_tables.py, the documented table and the regression vectors on every run.",
+         "Every (code, parameter, value) of the grid is written with every write variant and every word size and compared bit for bit with the reference encoder, which is itself validated against python/gen_code_tables.py, the documented table and the regression vectors on every run; the same grid is written through the library's other BitWrite implementors (counting and tracing wrappers), and the whole check is repeated in a build with debug assertions and overflow checks.",
          "Trusted: the reference encoder (textbook definitions, validated)."),
  "C05": ("model_checking", "5 (C05)", "complete sweep of all 6656x2 decode-table indices at every offset/fill + BFS to fixpoint of readers with table operations, table vs table-free on clones",
          "Complete over table indices and table entries (finite spaces enumerated entirely), over offsets 0..=2W+1 and over the reachable reader states on code images; premise (which reader may use which table) taken from the library's own diagnostic.",
          "Trusted: reference decoder; continuation bits after the index are from 4 (thorough 8) patterns."),
  "C06": ("exploration", "5 (C06)", "bounded-exhaustive enumeration of every length function vs reference length, plus write return / stream growth / read advance on real streams",
-         "All length functions and dispatch length objects are evaluated on all values below 2^20 (2^22 thorough), every power of two +-2, code-specific steps (incl. multiples of Golomb moduli around every power of two) and maxima, for all parameters; a grid over a 64-bit domain.",
+         "All length functions and dispatch length objects are evaluated on all values below 2^20 (2^22 thorough), every power of two +-2, code-specific steps (incl. multiples of Golomb moduli around every power of two) and maxima, for all parameters; returned lengths and consumed bits also through every dispatch mechanism (real factory readers included); a grid over a 64-bit domain.",
          "Trusted: reference lengths."),
  "C07": ("model_checking", "5 (C07)", "explicit-state BFS to the fixpoint of the real reader with set_bit_pos(p) for every p from every state; bit_pos checked after every transition",
-         "Every seek target from every reachable state over six backend kinds (plus byte streams with a partial trailing word); post-seek objects are ordinary states expanded with the full alphabet, so 'seek == fresh reader at p' is decided for every continuation; states reached through a reported error are continued by seeks.",
+         "Every seek target from every reachable state over six backend kinds (plus byte streams with a partial trailing word); post-seek objects are ordinary states expanded with the full alphabet, so 'seek == fresh reader at p' is decided for every continuation; states reached through a reported error are continued by seeks; byte sources delivering words in pieces; positions and seeks beyond 2^32 on a synthetic source.",
          "Trusted: reference model; finite image set."),
  "C08": ("model_checking", "5 (C08)", "two BFS views of the reader x writer product cut at the copy step (source view to fixpoint, destination view depth 3), on both copy-path builds",
-         "All continuations of all post-copy source states are explored (fixpoint), with copies of many lengths into writers of all word sizes; destination view bounded to depth 3; a grid of long copies (127..1025 words). Run on the optimised and on the generic copy paths; both must match the model.",
+         "All continuations of all post-copy source states are explored (fixpoint), with copies of many lengths into writers of all word sizes; destination view bounded to depth 3; a grid of long copies (127..1025 words) and copies of 2^32+ bits between synthetic source and comparing sink; a copy that fails must leave what the destination already held. Run on the optimised and on the generic copy paths; both must match the model.",
          "Trusted: reference model; quick tier uses a boundary set of copy lengths, thorough 0..=3W+2."),
  "C09": ("fault_enumeration", "5 (C09)", "enumeration of every truncation point (after every backend word) x BFS to fixpoint of the reader on strict and zero-extended backends",
          "Every truncation point of valid streams (also followed by a partial trailing word on byte streams), every reachable reader state and every operation classified by the model as inside/outside the data, seeks after reported errors, and codewords ending exactly with the last bit of a strict stream; complete for the images used.",
          "Trusted: reference decoder decides whether an operation needs a bit beyond the end."),
  "C12": ("model_checking", "5 (C12)", "explicit-state BFS over writer fill states x io::Write of every length 0..=40; reader BFS to fixpoint with io::Read of every length 0..=40",
-         "Every starting bit offset x every slice length on every word size (writer) and every reachable reader state x every length (reader), against the byte-in-stream-order model.",
+         "Every starting bit offset x every slice length on every word size (writer) and every reachable reader state x every length (reader), against the byte-in-stream-order model; every slice length x every start address modulo 8 of the caller's slice.",
          "Trusted: reference model; two byte patterns per length."),
  "C10": ("exploration", "5 (C10)", "complete enumeration of identifiers x dispatcher kinds x {write,read,len} on a value grid, dispatcher vs direct trait method",
-         "Complete over the identifier space (all 51 constants and aliases, every enumeration variant with parameters 0..=12 and large ones) and over the dispatcher kinds; values from the boundary grid. Bytes, lengths, values and end positions through each dispatcher are compared with the direct method.",
+         "Complete over the identifier space (all 51 constants and aliases, every enumeration variant with parameters 0..=12 and large ones) and over the dispatcher kinds; values from the boundary grid. Bytes, lengths, values and end positions through each dispatcher are compared with the direct method; the statistics wrapper in eight instantiations of its const parameters; repeated in a build with overflow checks.",
          "Trusted: the direct trait methods as specification (their correctness is C03/C04/C06); ConstCode identifiers are looked up by the NAME of the constant."),
  "C11": ("model_checking", "5 (C11)", "deviation-bounded exhaustive exploration of the wrapped Read/Write's answers (short counts, Interrupted, errors) + BFS of the adapter over a seekable Cursor",
-         "Every schedule of environment answers with at most 3 (thorough 5) deviations from the default, at every call index, for all word sizes and 1-3 words; explicit-state BFS of word positions over a Cursor (also pre-positioned); bit streams through the adapter over plain / chunking / commit-on-flush sinks. Exhaustive within the deviation bound.",
+         "Every schedule of environment answers with at most 3 (thorough 5) deviations from the default, at every call index, for all word sizes and 1-3 words; explicit-state BFS of word positions over a Cursor (also pre-positioned); bit streams through the adapter over plain / chunking / commit-on-flush sinks and over a sink whose k-th call fails (every k, every finisher including drop); ragged and mid-word streams continued through seeks. Exhaustive within the deviation bound.",
          "Trusted: the environment alphabet matches what std::io::Read/Write permit."),
  "C13": ("model_checking", "5 (C13)", "explicit-state BFS to the fixpoint over the real memory word streams vs Vec+cursor model, cross-checked by stateright's BFS checker (state counts must agree)",
-         "All reachable states from every initial array of length <= 3 over a 3-letter alphabet for four stream types x five word types x owned/borrowed storage; two independent engines.",
+         "All reachable states from every initial array of length <= 3 over a 3-letter alphabet for four stream types x five word types x owned/borrowed storage, operations read/write/position/seek/len/clone/flush; two independent engines.",
          "Trusted: Vec+cursor model; growth capped at 5 words and zero-extended reads at len+3 to close the space."),
  "C14": ("model_checking", "5 (C14)", "reader BFS (fixpoint) and writer BFS (depth 3) through the Count/Dbg wrappers with the full trait surface; counters checked after every transition",
-         "Every reachable wrapped-reader state x every trait method reachable through the wrapper (including table-parameterised codes and omega, copies), and writer histories to depth 3 including flushes; counters and values compared with the model after every step.",
+         "Every reachable wrapped-reader state x every trait method reachable through the wrapper (including table-parameterised codes and omega, copies), and writer histories to depth 3 including flushes; counters and values compared with the model after every step; every code x parameter x boundary value through both wrappers (length, counter, delivered bytes; reads with counter and position).",
          "Trusted: reference model; padding written by flush is not counted as written bits."),
  "C15": ("model_checking", "5 (C15)", "loom: all interleavings (preemption bound 3, unbounded for the smallest models) of 2-3 threads through one shared wrapper; plus complete enumeration of multisets <= 4 over 10 values x splits x merge forms",
-         "Concurrent half explored exhaustively by loom within the stated preemption bounds with the library's own Mutex replaced by loom's (cfg hook); sequential half complete over 1001 multisets, all 3-way splits and five merge forms.",
+         "Concurrent half explored exhaustively by loom within the stated preemption bounds with the library's own Mutex replaced by loom's (cfg hook); sequential half complete over 1001 multisets, all 3-way splits and five merge forms; eight instantiations of the generic statistics types; failing writes through the wrapper.",
          "Trusted: loom's scheduler/memory model; reference lengths as cost (cross-checked against actual written sizes for short codewords)."),
  "C16": ("exploration", "5 (C16)", "complete enumeration of variants x parameters, identifiers 0..=80, a malformed-text grammar, and all pairs of codes that compare equal",
-         "Finite spaces enumerated completely (names, identifiers, equivalence classes); malformed texts from a small grammar.",
+         "Finite spaces enumerated completely (names, identifiers, equivalence classes); malformed texts from a grammar (wrong case, prefixes, suffixes, bracket confusion, long/non-ASCII); formatting with width flags; repeated in a build with overflow checks.",
          "Trusted: the oracle does not constrain trailing text after a valid parameter."),
  "C17": ("exploration", "5 (C17)", "complete enumeration of the 8/16/32-bit types, dense windows + two-bit sums + limb-boundary patterns for wider types, vs closed formulas",
-         "Exhaustive for 8, 16 and 32 bits; for 64/128-bit and pointer-size types windows of 2^16 (2^20) around 0, MIN, MAX and every power of two, every value with two set bits +-2, and limb-boundary patterns.",
+         "Exhaustive for 8, 16 and 32 bits; for 64/128-bit and pointer-size types windows of 2^16 (2^20) around 0, MIN, MAX and every power of two, every value with two set bits +-2, and limb-boundary patterns; run in the optimised build and in a build with overflow checks (a panic is a finding).",
          "Trusted: the closed formulas of the statement."),
  "C18": ("exploration", "5 (C18)", "complete enumeration of all terminated byte strings of length <= 4 (thorough 5), all values below 2^21 and length-step boundaries; io functions vs bit-stream traits vs reference",
-         "Completeness decided on all terminated strings of length <= 4 (270 M; thorough: length 5, 2^35); agreement of io and bit-stream variants on the value grid for every stream endianness and word size, also over chunking sinks/sources and at the very end of strict streams.",
+         "Completeness decided on all terminated strings of length <= 4 (270 M; thorough: length 5, 2^35); agreement of io and bit-stream variants on the value grid for every stream endianness and word size, also over chunking and interrupting sinks/sources and at the very end of strict streams.",
          "Trusted: the offset definition of the complete code in the module documentation."),
  "C19": ("model_checking", "5 (C19)", "the same reduced state-space explorations run in several builds of the library (features x profiles); all must match the model, digests must agree; complete dirty-bit sweep of write_bits",
-         "Quick: 3 builds (default, checks+no_copy_impls, checks+debug assertions); thorough: all 8 of the matrix. Each runs writer BFS, reader BFS to fixpoint and code streams on clean arguments; the argument check is swept over every n and every single dirty bit.",
+         "Quick: 3 builds (default, checks+no_copy_impls, checks+debug assertions); thorough: all 8 of the matrix. Each runs writer BFS, reader BFS to fixpoint and code streams on clean arguments; the argument check is swept over every n and every single dirty bit from every fill level of the buffer, all word sizes.",
          "Trusted: same toolchain/host for all variants."),
  "C20": ("exploration", "5 (C20)", "bounded-exhaustive: monotonicity and exact Kraft sums of all length functions; change-point iterator on all library length functions and ALL <=5-step functions on a 39-point grid with a call budget",
-         "Dense prefixes (2^20 / 2^21) and windows around powers of two for monotonicity and Kraft; the iterator is run on all step functions with at most 5 (thorough 6) steps on a 39-point grid (658 k / 3.9 M functions, each with two value maps) and on every library length function, with termination decided by a call budget.",
+         "Dense prefixes (2^20 / 2^21) and windows around powers of two for monotonicity and Kraft; the iterator is run on all step functions with at most 5 (thorough 6) steps on a 39-point grid (658 k / 3.9 M functions, each with three value maps: small, top = usize::MAX, levels 2^32 apart) and on every library length function, with termination decided by a call budget.",
          "Trusted: the call budget (200 000 evaluations) separates termination from non-termination."),
 }
 
